@@ -250,6 +250,8 @@ def run(ctx):
         ctx.fail("SHAREDMUT positive control failed")
     rule_restore(ctx)
     rule_result_fresh(ctx)
+    rule_call_state(ctx)
+    rule_logger_teardown(ctx)
     from rules import _lints
     RC = "CLASS-MUTABLE"
     ctx.rule(RC, "no class of pandapower.diagnostic keeps a mutable literal at class level that its methods mutate through self without "
@@ -309,6 +311,108 @@ def rule_result_fresh(ctx):
                ": the dictionary returned by an earlier call is changed by the next call on the same instance", fi.loc(inplace[0]) if inplace else fi.loc())
 
 
+def rule_call_state(ctx):
+    """an attribute that diagnostic() itself writes carries the values of the previous call until it is written again"""
+    R = "CALL-STATE"
+    ctx.rule(R, "in every DiagnosticFunction.diagnostic(net, **kwargs), an instance attribute that the method writes (rebinds, stores "
+                "items into, mutates) is not read before this call has written it: until then it holds what the previous call - "
+                "possibly of another Diagnostic instance sharing the function object - left there")
+    n = 0
+    m = ctx.repo.module(DF)
+    for ci in m.classes.values():
+        fi = ci.methods.get("diagnostic")
+        if fi is None:
+            continue
+        rebinds, items, reads = {}, {}, {}
+        store_bases = set()
+        for node in ast.walk(fi.node):
+            targets = []
+            if isinstance(node, ast.Assign):
+                targets = node.targets
+            elif isinstance(node, (ast.AnnAssign, ast.AugAssign)):
+                targets = [node.target]
+            for t in targets:
+                for tt in (t.elts if isinstance(t, (ast.Tuple, ast.List)) else [t]):
+                    d = dotted(tt)
+                    if d and d.startswith("self.") and d.count(".") == 1:
+                        rebinds.setdefault(d, []).append(node.lineno)
+                    if isinstance(tt, ast.Subscript):
+                        d = dotted(tt.value)
+                        if d and d.startswith("self.") and d.count(".") == 1:
+                            items.setdefault(d, []).append(node.lineno)
+                            store_bases.add(id(tt.value))
+            if isinstance(node, ast.Call) and isinstance(node.func, ast.Attribute) and node.func.attr in MUTATORS:
+                d = dotted(node.func.value)
+                if d and d.startswith("self.") and d.count(".") == 1 and node.func.attr not in ("pop",):
+                    items.setdefault(d, []).append(node.lineno)
+                    store_bases.add(id(node.func.value))
+        for node in ast.walk(fi.node):
+            if isinstance(node, ast.Attribute) and isinstance(node.ctx, ast.Load) and isinstance(node.value, ast.Name) \
+                    and node.value.id == "self" and id(node) not in store_bases:
+                reads.setdefault(f"self.{node.attr}", []).append(node)
+        for attr in sorted(set(rebinds) | set(items)):
+            if attr in ("self.net", "self.out"):
+                continue
+            n += 1
+            # fresh from: the first rebind of this call; for item stores without a rebind, the last store of this call
+            fresh_from = min(rebinds[attr]) if attr in rebinds else max(items[attr])
+            stale = [r for r in reads.get(attr, []) if r.lineno < fresh_from]
+            ctx.ob(R, f"{DF}::{fi.qualname}::{attr}", not stale,
+                   f"{attr} is written by this call before it is read" if not stale else
+                   f"`{norm(stale[0], 60)}` reads {attr} before this call has written it (written at line {fresh_from}): the value comes "
+                   "from the previous call of the same function object, so the options of one run leak into the next",
+                   fi.loc(stale[0]) if stale else fi.loc())
+    if n < 5:
+        ctx.fail(f"CALL-STATE: only {n} attributes written in diagnostic() methods found (confirmed: 5)")
+
+
+def rule_logger_teardown(ctx):
+    R = "LOGGER-TEARDOWN"
+    ctx.rule(R, "every filter that a function of the diagnostic package adds to the (module-level, shared) logger is removed again by "
+                "name at the end of the same function, the level it sets is reset to the saved one, and the logger's filter list is "
+                "never edited while it is being iterated (the iteration skips every second entry and a filter survives the call)")
+    n = 0
+    for mn in [x for x in ctx.repo.module_names() if x.startswith("pandapower.diagnostic")]:
+        m = ctx.repo.module(mn)
+        for fi in m.functions.values():
+            adds = [c for c in ast.walk(fi.node) if isinstance(c, ast.Call) and isinstance(c.func, ast.Attribute) and c.func.attr == "addFilter"]
+            for lp in ast.walk(fi.node):
+                if isinstance(lp, ast.For) and isinstance(lp.iter, ast.Attribute) and lp.iter.attr in ("filters", "handlers"):
+                    edits = [c for c in ast.walk(lp) if isinstance(c, ast.Call) and isinstance(c.func, ast.Attribute)
+                             and c.func.attr in ("removeFilter", "removeHandler", "addFilter", "addHandler")
+                             and norm(c.func.value) == norm(lp.iter.value)]
+                    if edits:
+                        n += 1
+                        ctx.ob(R, f"{mn}::{fi.qualname}::edit-while-iterating", False,
+                               f"`{norm(edits[0], 60)}` edits {norm(lp.iter)} inside `for ... in {norm(lp.iter)}`: entries are skipped and a "
+                               "filter of this report stays on the shared logger, where it suppresses the output of later calls", fi.loc(edits[0]))
+            if not adds:
+                continue
+            removes = [c for c in ast.walk(fi.node) if isinstance(c, ast.Call) and isinstance(c.func, ast.Attribute) and c.func.attr == "removeFilter"]
+            for a_ in adds:
+                n += 1
+                key = (norm(a_.func.value), norm(a_.args[0]) if a_.args else "")
+                ok = any((norm(r.func.value), norm(r.args[0]) if r.args else "") == key and r.lineno > a_.lineno for r in removes)
+                ctx.ob(R, f"{mn}::{fi.qualname}::{key[1]}", ok,
+                       f"filter {key[1]} is removed again" if ok else
+                       f"`{norm(a_, 60)}` has no matching {key[0]}.removeFilter({key[1]}) later in {fi.qualname}: the filter stays on the "
+                       "shared logger and changes what later calls report", fi.loc(a_))
+            levels = [c for c in ast.walk(fi.node) if isinstance(c, ast.Call) and isinstance(c.func, ast.Attribute) and c.func.attr == "setLevel"]
+            if levels:
+                n += 1
+                saved = {t.id for st in ast.walk(fi.node) if isinstance(st, ast.Assign) and isinstance(st.value, ast.Call)
+                         and isinstance(st.value.func, ast.Attribute) and st.value.func.attr in ("getEffectiveLevel",)
+                         for t in st.targets if isinstance(t, ast.Name)}
+                saved |= {t.id for st in ast.walk(fi.node) if isinstance(st, ast.Assign) and isinstance(st.value, ast.Attribute)
+                          and st.value.attr == "level" for t in st.targets if isinstance(t, ast.Name)}
+                last = max(levels, key=lambda c: c.lineno)
+                ok = bool(last.args) and isinstance(last.args[0], ast.Name) and last.args[0].id in saved
+                ctx.ob(R, f"{mn}::{fi.qualname}::level", ok, "the logger level is reset to the saved level" if ok else
+                       f"the last setLevel in {fi.qualname} (`{norm(last, 50)}`) does not restore the level saved at entry", fi.loc(last))
+    if n < 3:
+        ctx.fail(f"LOGGER-TEARDOWN: only {n} obligations (confirmed: two filters and the level in Diagnostic.report)")
+
+
 def variants(repo):
     dg = "pandapower/diagnostic/diagnostic.py"
     df = "pandapower/diagnostic/diagnostic_functions.py"
@@ -318,6 +422,10 @@ def variants(repo):
         V("cached default diagnostic tool", "pandapower/diagnostic/diagnostic_helpers.py", lambda s: s.replace("def diagnostic(\n", "from functools import lru_cache\n\n\n@lru_cache(maxsize=None)\ndef _default_diagnostic_tool():\n    from pandapower.diagnostic.diagnostic import Diagnostic\n    return Diagnostic()\n\n\ndef diagnostic(\n", 1), "memoised"),
         V("kwargs shared through a conditional expression", dg, replace_once("self.kwargs = dict(default_argument_values)", "self.kwargs = default_argument_values if add_default_functions else {}"), "self.kwargs"),
         V("ward rows of the xward replacement not restored", df, lambda s: s.replace("            ward_copy = copy.deepcopy(net.ward)\n", "", 1).replace("net.ward = ward_copy", "pass", 1), "ImplausibleImpedanceValues.diagnostic::normal-paths"),
+        V("thresholds remembered on the function object", df, lambda s: s.replace('kwargs.pop("min_x_ohm", default_argument_values.get("min_x_ohm", None))', 'kwargs.pop("min_x_ohm", self.params.get("min_x_ohm", default_argument_values.get("min_x_ohm", None)))', 1), "CALL-STATE"),
+        V("filters removed while iterating", dg, replace_once("        logger.removeFilter(log_counter)\n        logger.removeFilter(log_detail_filter)\n", "        for log_filter in logger.filters:\n            logger.removeFilter(log_filter)\n"), "LOGGER-TEARDOWN"),
+        V("detail filter left on the logger", dg, replace_once("        logger.removeFilter(log_detail_filter)\n", ""), "log_detail_filter"),
+        V("twin: filters removed over a copy", dg, replace_once("        logger.removeFilter(log_counter)\n        logger.removeFilter(log_detail_filter)\n", "        for log_filter in (log_counter, log_detail_filter):\n            logger.removeFilter(log_filter)\n        logger.removeFilter(log_counter)\n        logger.removeFilter(log_detail_filter)\n"), None),
         V("results cleared in place", dg, lambda s: s.replace("        self.diag_results = {}\n        self.diag_errors = {}\n", "        self.diag_results.clear()\n        self.diag_errors.clear()\n", 1), "RESULT-FRESH"),
         V("kwargs shared", dg, replace_once("self.kwargs = dict(default_argument_values)", "self.kwargs = default_argument_values"), "self.kwargs"),
         V("functions shared", dg, replace_once("self._functions = list(default_diagnostic_functions)", "self._functions = default_diagnostic_functions"), "self._functions"),
